@@ -71,6 +71,10 @@ T['C06'] = ("""C06 Malformed input becomes diagnostics, never a panic.""", [
     ('C06_to_no_diag_partial', 'copy_to_no_diag_partial', "and when the target carries the schema's types along every path that is written, whatever values it holds, no diagnostic is produced"),
     ('C06_to_boundary_list_elem', 'to_field_objlist_elem_panics', "boundary, outside the property's quantifier (types are removed there, never replaced): a list of messages whose target element type is not an object type panics (one-value type assertion o.ElemType.(types.ObjectType))"),
     ('C06_to_boundary_map_elem', 'to_field_objmap_elem_panics', 'the same for a map of messages'),
+    ('C06_to_pruned_spec_partial', 'copy_to_pruned_spec', "CopyTo over exactly the property's quantifier: a target obtained from the schema-typed empty object by removing ANY set of attribute types at ANY level (nested objects, element types of lists and maps of messages): the call returns, every diagnostic is a WriteMissing, every top-level attribute whose type was removed is reported, and every top-level attribute whose type was kept is still written with a value of the schema's type (class tf_ok)"),
+    ('C06_to_missing_reported', 'copy_to_missing_reported', 'for EVERY message, source and object target: a field whose attribute type is absent is reported with its path'),
+    ('C06_to_repopulated_pruned_partial', 'copy_to_repopulated_pruned_partial', 'the same for a populated target: the object an earlier CopyTo produced, whose types (declared and carried by the held values) are then removed'),
+    ('C06_to_diag_monotone', 'to_fields_diag_mono', 'diagnostics are never lost along the way'),
 ])
 
 T['C07'] = ("""C07 Oneof groups stay exclusive in both directions.""", [
